@@ -1,80 +1,172 @@
-// C22: RWLock mutual exclusion and progress.
+// C22: RWLock mutual exclusion and progress (engine cbmc-seq: sequentialised step machine).
 // Real code: detail::RWLockImpl::{lock, try_lock, unlock, lock_shared, try_lock_shared,
 //   unlock_shared, lock_upgrade, lock_downgrade, setWriteBit, waitForReaderDrain, readerRelease},
 //   CompletionEventImpl::{wait, tryNotify} (futex path).
-// Symbolic: each thread's operation sequence, the interleaving, futex wake choices, spurious returns.
+// Symbolic: each thread's operation sequence (drawn from the kinds enabled for that thread by the
+//   VF_K<t> bit masks), the interleaving of all atomic operations / futex calls, futex wake choices,
+//   spurious futex returns.
+// Kinds (bit numbers in VF_K<t>): 0 lock, 1 try_lock, 2 lock_shared, 3 try_lock_shared,
+//   4 lock + lock_downgrade, 5 lock_shared + lock_upgrade.
 #include <new>
 #include <dispenso/rw_lock.h>
 #include "vf.h"
 
+#ifndef VF_PAIRS
+#define VF_PAIRS 1
+#endif
+#ifndef VF_K0
+#define VF_K0 0
+#endif
+#ifndef VF_K1
+#define VF_K1 0
+#endif
+#ifndef VF_K2
+#define VF_K2 0
+#endif
+#ifndef VF_K3
+#define VF_K3 0
+#endif
+
+#ifndef VF_MAIN_HOLDS_SHARED
+#define VF_MAIN_HOLDS_SHARED 0
+#endif
+#ifndef VF_MUST
+#define VF_MUST 0
+#endif
+
 static dispenso::RWLock L;
 static int g_writers, g_readers;  // ghost occupancy
+static unsigned g_events;         // ghost: which interesting outcomes happened (for reachability markers)
+enum { EV_TRY_LOCK_FAILED = 1, EV_TRY_SHARED_FAILED = 2, EV_UPGRADED = 4, EV_DOWNGRADED = 8, EV_TRY_LOCK_OK = 16 };
+static inline void note(unsigned ev) { VfAtomic a; g_events |= ev; }
 
-static inline void enter_w() {
-  VfAtomic a;
-  vf_check(g_writers == 0 && g_readers == 0, "write access granted while another writer or a reader holds the lock");
-  ++g_writers;
-}
-static inline void exit_w() { VfAtomic a; --g_writers; }
-static inline void enter_r() {
-  VfAtomic a;
-  vf_check(g_writers == 0, "read access granted while a writer holds the lock");
-  ++g_readers;
-}
-static inline void exit_r() { VfAtomic a; --g_readers; }
-
-VF_NOINLINE static bool k_try_lock() { return L.try_lock(); }
-VF_NOINLINE static void k_lock() { L.lock(); }
-VF_NOINLINE static void k_lock_shared() { L.lock_shared(); }
-VF_NOINLINE static void k_lock_upgrade() { L.lock_upgrade(); }
-
-#define DEAD_RET() do { if (vf_is_dead()) return; } while (0)
-
-static void run_ops(bool mayUpgrade) {
-  for (int i = 0; i < VF_PAIRS; ++i) {
-    uint32_t op = vf_range_u32(0, mayUpgrade ? 5 : 4);
-    switch (op) {
-      case 0:
-        k_lock(); DEAD_RET();
-        enter_w(); exit_w();
-        L.unlock();
-        break;
-      case 1:
-        if (k_try_lock()) { enter_w(); exit_w(); L.unlock(); }
-        break;
-      case 2:
-        k_lock_shared(); DEAD_RET();
-        enter_r(); exit_r();
-        L.unlock_shared();
-        break;
-      case 3:
-        if (L.try_lock_shared()) { enter_r(); exit_r(); L.unlock_shared(); }
-        break;
-      case 4:  // write then downgrade to read
-        k_lock(); DEAD_RET();
-        enter_w(); exit_w();
-        L.lock_downgrade();
-        enter_r(); exit_r();
-        L.unlock_shared();
-        break;
-      default:  // read then upgrade (single upgrader, as documented)
-        k_lock_shared(); DEAD_RET();
-        enter_r(); exit_r();
-        k_lock_upgrade(); DEAD_RET();
-        enter_w(); exit_w();
-        L.unlock();
-        break;
-    }
+// A ghost critical section: enter (atomic check + count), a scheduling point at which any other
+// thread may run (and would trip the check if it were granted a conflicting access), exit.
+static inline void crit_w() {
+  {
+    VfAtomic a;
+    vf_check(g_writers == 0 && g_readers == 0, "write access granted while another writer or a reader holds the lock");
+    ++g_writers;
+  }
+  vf_sched_point();
+  {
+    VfAtomic a;
+    vf_check(g_writers == 1 && g_readers == 0, "another thread was granted access while a writer holds the lock");
+    --g_writers;
   }
 }
-static void t_plain(void*) { run_ops(false); }
-static void t_upgrader(void*) { run_ops(true); }
+static inline void crit_r() {
+  {
+    VfAtomic a;
+    vf_check(g_writers == 0, "read access granted while a writer holds the lock");
+    ++g_readers;
+  }
+  vf_sched_point();
+  {
+    VfAtomic a;
+    vf_check(g_writers == 0, "write access granted while a reader holds the lock");
+    --g_readers;
+  }
+}
+
+template <unsigned MASK>
+static inline void one_op() {
+  uint8_t op = vf_nondet_u8();
+  vf_assume(op < 6);
+  vf_assume((MASK >> (op & 7u)) & 1u);
+  if ((MASK & 1u) && op == 0) {
+    L.lock();
+    crit_w();
+    L.unlock();
+  } else if ((MASK & 2u) && op == 1) {
+    if (L.try_lock()) {
+      crit_w();
+      L.unlock();
+      note(EV_TRY_LOCK_OK);
+    } else {
+      note(EV_TRY_LOCK_FAILED);
+    }
+  } else if ((MASK & 4u) && op == 2) {
+    L.lock_shared();
+    crit_r();
+    L.unlock_shared();
+  } else if ((MASK & 8u) && op == 3) {
+    if (L.try_lock_shared()) {
+      crit_r();
+      L.unlock_shared();
+    } else {
+      note(EV_TRY_SHARED_FAILED);
+    }
+  } else if ((MASK & 16u) && op == 4) {  // write, then downgrade to read
+    L.lock();
+    crit_w();
+    L.lock_downgrade();
+    crit_r();
+    L.unlock_shared();
+    note(EV_DOWNGRADED);
+  } else if ((MASK & 32u) && op == 5) {  // read, then upgrade to write
+    L.lock_shared();
+    crit_r();
+    L.lock_upgrade();
+    crit_w();
+    L.unlock();
+    note(EV_UPGRADED);
+  }
+}
+
+template <unsigned MASK>
+static inline void run_ops() {
+  for (int i = 0; i < VF_PAIRS; ++i) one_op<MASK>();
+}
+
+static void t1(void*) { run_ops<VF_K1>(); }
+#if VF_K2
+static void t2(void*) { run_ops<VF_K2>(); }
+#endif
+#if VF_K3
+static void t3(void*) { run_ops<VF_K3>(); }
+#endif
 
 extern "C" void vf_main() {
-  vf_spawn(t_upgrader, nullptr);
-  vf_spawn(t_plain, nullptr);
-#if VF_THREADS >= 4
-  vf_spawn(t_plain, nullptr);
+  vf_spawn(t1, nullptr);
+#if VF_K2
+  vf_spawn(t2, nullptr);
 #endif
-  run_ops(false);
+#if VF_K3
+  vf_spawn(t3, nullptr);
+#endif
+#if VF_MAIN_HOLDS_SHARED
+  // main holds the lock shared for as long as the other threads run (try_lock's bounded drain must
+  // give up and roll back; blocking writers would wait forever, so none are enabled here)
+  L.lock_shared();
+  { VfAtomic a; vf_check(g_writers == 0, "read access granted while a writer holds the lock"); ++g_readers; }
+  vf_join_all();
+  { VfAtomic a; vf_check(g_writers == 0, "write access granted while a reader holds the lock"); --g_readers; }
+  L.unlock_shared();
+#else
+#if VF_K0
+  run_ops<VF_K0>();
+#endif
+  vf_join_all();
+#endif
+  // Quiescence: every acquire was matched by its release (failed try_* need none).
+  vf_check(g_writers == 0 && g_readers == 0, "ghost occupancy not zero at quiescence (harness)");
+  // Non-vacuity markers (witness twin; the spec demands all of them with 'must_reach': 'all').
+#if VF_MUST & 1
+  if (g_events & EV_TRY_LOCK_FAILED) vf_reach("a try_lock failed (and everything still completed)");
+#endif
+#if VF_MUST & 2
+  if (g_events & EV_TRY_SHARED_FAILED) vf_reach("a try_lock_shared failed (and everything still completed)");
+#endif
+#if VF_MUST & 4
+  if (g_events & EV_UPGRADED) vf_reach("a lock_upgrade completed");
+#endif
+#if VF_MUST & 8
+  if (g_events & EV_DOWNGRADED) vf_reach("a lock_downgrade completed");
+#endif
+#if VF_MUST & 16
+  if (g_events & EV_TRY_LOCK_OK) vf_reach("a try_lock succeeded");
+#endif
+  vf_check(L.lockWord().load(std::memory_order_relaxed) == 0,
+           "lock word is not back to the unlocked value after every holder released (a later locker would block forever)");
 }
